@@ -17,6 +17,7 @@ package meta
 
 import (
 	"regexp/syntax"
+	"unicode"
 )
 
 // AnchoredLiteralInfo contains extracted components for fast matching.
@@ -222,10 +223,17 @@ func extractLiteral(re *syntax.Regexp) []byte {
 	if re.Op != syntax.OpLiteral {
 		return nil
 	}
-	// Convert runes to bytes (assuming ASCII for now)
+	if re.Flags&syntax.FoldCase != 0 {
+		for _, r := range re.Rune {
+			if unicode.SimpleFold(r) != r {
+				return nil // case-insensitive letters: a byte comparison is not enough
+			}
+		}
+	}
+	// Convert runes to bytes
 	result := make([]byte, 0, len(re.Rune))
 	for _, r := range re.Rune {
-		if r > 255 {
+		if r > 127 {
 			// Non-ASCII literal - still valid but needs UTF-8 encoding
 			// For simplicity, encode as UTF-8
 			buf := make([]byte, 4)
